@@ -17,17 +17,23 @@ QUICK_N = 2000
 THOROUGH_N = 25000
 QUICK_BUDGET_S = 70
 THOROUGH_BUDGET_S = 900
-RULE = ("charts of 6 games (base/osu/qua/bms/o2j/sm), 1-10 keys, 0-120 notes (thorough: up to 400) built by per-column walks "
-        "whose steps sit on / next to the threshold boundary (gap+thr, +-1, +-1/1024), with chords, stacked duplicates of "
-        "different kind/length (also at the end of a column), single-note and empty columns, empty hit or hold lists, "
-        "gap/threshold >= 0 incl. 0, rows shuffled; StepMania charts may carry mines/fakes/lifts/keysounds/rolls placed "
-        "between / on the hits and holds (they must come back untouched and must not influence the result); "
-        "every list is built in one of five ways (float64 frame, int64 frame, from_dict of column lists / of row dicts with Python ints, "
-        "item objects with Python ints), int-typed lists combined with fractional gap/threshold and fractional times of the other list; "
-        "non-trivial = some column holds at least two notes")
+RULE = ("input charts from three kinds of source: (1) ~72% built through the list API — 6 map classes (base/osu/qua/bms/o2j/sm), "
+        "1-10 keys, 0-120 notes (thorough: up to 400) by per-column walks whose steps sit on / next to the threshold boundary "
+        "(gap+thr, +-1, +-1/1024), chords, stacked duplicates of different kind/length (also at the end of a column), single-note "
+        "and empty columns, empty hit or hold lists, gap/threshold >= 0 incl. 0, rows shuffled, StepMania mines/fakes/lifts/"
+        "keysounds/rolls between / on the notes, every list built in one of five ways (float64 / int64 frames, from_dict of column "
+        "lists / row dicts with Python ints, item objects) with int-typed lists next to fractional gaps and times, hit lists that "
+        "carry undeclared columns (`index`, `foo`, a stray all-NaN `length`; at a low rate a stray `length` with values — outside the domain, correspondence only); (2) ~28% read by the REAL readers from "
+        "generated osu texts, .qua documents (incl. explicit `EndTime: 0` and omitted keys), .sm texts, BMS lines and OJN bytes "
+        "(the text/byte generators of harness/props/c01, c06, c02, c04, c07 are reused); (3) ~22% of all charts additionally go "
+        "through `rate` or one of the 16 converters before full_ln.  The kind of a note is the list it lives in; the input rows are "
+        "taken from the chart that full_ln receives.  non-trivial = some column holds at least two notes")
 ASSUMPTIONS = [
     "pandas concat/sort_values/groupby/diff/shift/itertuples and DataFrame.from_dict are modelled as list operations "
     "(any sorting permutation is accepted for equal offsets)",
+    "a chart the source does not yield (unreadable text, converter refuses, NaN/inf cell in the input) is skipped and counted "
+    "(`skipped` tag, outside the domain); charts read / converted / rated are judged on the exact stream when every value is a "
+    "small dyadic, else on the tolerance stream",
     "stream T: lengths are compared within 2^-46 * (1 + largest operand magnitude); a threshold comparison closer than "
     "that to its boundary is counted as float-boundary and only conservation is judged",
 ]
@@ -133,6 +139,23 @@ def build_map(case):
     m.holds = make_list(type(m.holds), case["holds"], bd.get("holds", "frame"))
     for k, rows in (case.get("extras") or {}).items():
         setattr(m, k, make_list(type(m.objs[k]), rows, bd.get("extras", "frame")))
+    # legal but unusual inputs: lists that carry columns nobody declared (a stray `length` on hits, `index`, ...)
+    import numpy as np
+    if any(len(r) > 2 for r in case["hits"]):
+        m.hits.df = m.hits.df.assign(length=np.array(
+            [float("nan") if (len(r) < 3 or r[2] is None) else float(F(r[2])) for r in case["hits"]], dtype=float))
+    for which, cols in (case.get("xcols") or {}).items():
+        lst = m.objs[which]
+        if len(lst) == 0:
+            continue
+        df = lst.df
+        for c in cols:
+            if c == "index":
+                df = df.assign(index=np.arange(len(df))[::-1])
+                df = df[["index"] + [x for x in df.columns if x != "index"]]
+            else:
+                df = df.assign(**{c: [f"{c}{i}" for i in range(len(df))]})
+        lst.df = df
     bp = case.get("bpms") or []
     if bp:
         import pandas as pd
@@ -140,6 +163,186 @@ def build_map(case):
         df = B.from_dict(dict(offset=[float(F(b[0])) for b in bp], bpm=[float(F(b[1])) for b in bp])).df
         m.bpms = B(df)
     return m
+
+
+class Skip(Exception):
+    """the case does not yield a chart inside the domain (unreadable text, conversion refused, NaN in the input)"""
+
+
+def _props_mod(name):
+    import importlib
+    return importlib.import_module("props." + name)
+
+
+def read_chart(fmt, payload, pick):
+    """a chart through the REAL reader of the format; payload = a case of the format's own property module"""
+    import logging
+    import warnings
+    logging.disable(logging.CRITICAL)
+    try:
+        with warnings.catch_warnings():
+            warnings.simplefilter("ignore")
+            if fmt == "osu":
+                from reamber.osu.OsuMap import OsuMap
+                return OsuMap.read(list(payload["lines"]))
+            if fmt == "qua":
+                from reamber.quaver.QuaMap import QuaMap
+                return QuaMap.read(_props_mod("c06").render(payload))
+            if fmt == "sm":
+                from reamber.sm.SMMapSet import SMMapSet
+                maps = SMMapSet.read(_props_mod("c02").render(payload)).maps
+            elif fmt == "bms":
+                from reamber.bms.BMSMap import BMSMap
+                from reamber.bms.BMSChannel import BMSChannel
+                return BMSMap.read(list(payload["lines"]), getattr(BMSChannel, payload["layout"]))
+            elif fmt == "o2j":
+                from reamber.o2jam.O2JMapSet import O2JMapSet
+                maps = O2JMapSet.read(_props_mod("c07").build(payload)).maps
+            else:
+                raise Skip("unknown format")
+            if not maps:
+                raise Skip("no chart in the set")
+            return maps[pick % len(maps)]
+    except Skip:
+        raise
+    except Exception as e:
+        raise Skip("unreadable:" + type(e).__name__)
+    finally:
+        logging.disable(logging.NOTSET)
+
+
+SRC_PREFIX = {"OsuMap": "Osu", "QuaMap": "Qua", "BMSMap": "BMS", "SMMap": "SM", "O2JMap": "O2J"}
+CONVS = ["BMSToOsu", "BMSToQua", "BMSToSM", "O2JToBMS", "O2JToOsu", "O2JToQua", "O2JToSM", "OsuToBMS", "OsuToQua", "OsuToSM",
+         "QuaToBMS", "QuaToOsu", "QuaToSM", "SMToBMS", "SMToOsu", "SMToQua"]
+SM_TYPES = {3: "dance-threepanel", 4: "dance-single", 6: "dance-solo", 7: "kb7-single", 8: "dance-double"}
+
+
+def apply_post(m, step):
+    """a further library operation on the chart before full_ln: rate, or one of the converters"""
+    import logging
+    import warnings
+    logging.disable(logging.CRITICAL)
+    try:
+        with warnings.catch_warnings():
+            warnings.simplefilter("ignore")
+            if step["op"] == "rate":
+                return m.rate(float(F(step["by"])))
+            if step["op"] != "convert":
+                raise Skip("unknown post step")
+            import reamber.algorithms.convert as C
+            conv = step["conv"]
+            src = SRC_PREFIX.get(type(m).__name__)
+            if src is None or not conv.startswith(src + "To"):
+                raise Skip("converter does not take this chart")
+            if len(m.bpms) == 0:
+                raise Skip("converter needs a tempo point")
+            keys = int(max([0] + [int(c) for l in m.notes for c in l.column.tolist()])) + 1
+            if src == "Osu":
+                m.circle_size = keys
+            if src == "SM":
+                from reamber.sm.SMMapSet import SMMapSet
+                if keys in SM_TYPES:
+                    m.chart_type = SM_TYPES[keys]
+                arg = SMMapSet()
+                arg.maps = [m]
+            elif src == "O2J":
+                from reamber.o2jam.O2JMapSet import O2JMapSet
+                arg = O2JMapSet()
+                arg.maps = [m]
+                arg.level = [1, 1, 1, 0]
+            else:
+                arg = m
+            out = getattr(C, conv).convert(arg)
+            outs = out if isinstance(out, list) else (out.maps if hasattr(out, "maps") else [out])
+            if not outs:
+                raise Skip("converter returned nothing")
+            o = outs[0]
+            if not hasattr(o, "objs") and hasattr(o, "maps"):      # a list of map sets (…ToSM)
+                if not o.maps:
+                    raise Skip("converter returned an empty set")
+                o = o.maps[0]
+            return o
+    except Skip:
+        raise
+    except Exception as e:
+        raise Skip(f"post-{step.get('op')}-refused:" + type(e).__name__)
+    finally:
+        logging.disable(logging.NOTSET)
+
+
+def load_chart(case):
+    if case.get("via", "api") == "read":
+        m = read_chart(case["fmt"], case["payload"], int(case.get("pick", 0)))
+    else:
+        m = build_map(case)
+    for step in case.get("post") or []:
+        m = apply_post(m, step)
+    return m
+
+
+def chart_rows(m):
+    """(rows of the further note lists, hits, holds) of a chart; kind of a note = the list it lives in.
+    A hit row is (offset, column, stray) where stray = the value of a `length` column the hit list may carry
+    (None when absent / NaN) — the property does not look at it, the code does (domain hypothesis of the theorems)."""
+    import numpy as np
+    try:
+        hd = m.hits.df
+        stray = hd["length"].tolist() if "length" in hd.columns else [float("nan")] * len(hd)
+        hits = []
+        for o, c, l in zip(hd["offset"].tolist(), hd["column"].tolist(), stray):
+            l = float(l) if l is not None else float("nan")
+            if math.isinf(l):
+                raise BadNumber("inf")
+            hits.append((fin(o), _intcol(c), None if math.isnan(l) else Fr(l)))
+        holds = rows_of(m.holds)
+        if any(l is None for (_o, _c, l) in holds):
+            raise BadNumber("hold without length")
+        extras = []
+        for k in note_lists(m):
+            if k not in ("hits", "holds"):
+                extras += rows_of(m.objs[k])
+    except (BadNumber, TypeError, ValueError) as e:
+        raise Skip("input outside the domain (non-finite or non-numeric cell): " + str(e)[:60])
+    return extras, hits, holds
+
+
+def frames_same(a, b):
+    """same columns, same cells row by row (NaN = NaN); dtypes and row labels are not content"""
+    if list(a.columns) != list(b.columns) or len(a) != len(b):
+        return False
+    for c in a.columns:
+        for x, y in zip(a[c].tolist(), b[c].tolist()):
+            if x is y:
+                continue
+            try:
+                if x != x and y != y:
+                    continue
+            except Exception:
+                pass
+            try:
+                eq = x == y
+                if hasattr(eq, "all"):
+                    eq = eq.all()
+                if not eq:
+                    return False
+            except Exception:
+                return False
+    return True
+
+
+def _intcol(c):
+    try:
+        c = float(c)
+    except (TypeError, ValueError):
+        raise BadNumber(repr(c)[:30])
+    if not math.isfinite(c) or c != int(c):
+        raise BadNumber(f"column {c!r}")
+    return int(c)
+
+
+def e_exact(x):
+    d = x.denominator
+    return d & (d - 1) == 0 and d <= 1024 and abs(x) < 2 ** 31
 
 
 def note_lists(m):
@@ -154,7 +357,10 @@ class BadNumber(Exception):
 
 
 def fin(x):
-    x = float(x)
+    try:
+        x = float(x)
+    except (TypeError, ValueError):
+        raise BadNumber(repr(x)[:30])
     if not math.isfinite(x):
         raise BadNumber(repr(x))
     return Fr(x)
@@ -164,15 +370,9 @@ def rows_of(lst):
     """[(offset, column, length|None)] as exact rationals"""
     df = lst.df
     has_len = "length" in df.columns
-    out = []
-    for i in range(len(df)):
-        off = fin(df["offset"].iloc[i])
-        colv = float(df["column"].iloc[i])
-        if not math.isfinite(colv) or colv != int(colv):
-            raise BadNumber(f"column {colv!r}")
-        ln = fin(df["length"].iloc[i]) if has_len else None
-        out.append((off, int(colv), ln))
-    return out
+    offs, cols = df["offset"].tolist(), df["column"].tolist()
+    lens = df["length"].tolist() if has_len else [None] * len(offs)
+    return [(fin(o), _intcol(c), fin(l) if has_len else None) for o, c, l in zip(offs, cols, lens)]
 
 
 def err_class(e):
@@ -264,15 +464,31 @@ def snap_lengths(impl_rows, inp_rows, gap, tol):
 def run(case, drv):
     import warnings
     from reamber.algorithms.generate.full_ln import full_ln
-    game = case["game"]
     gap, thr = F(case["gap"]), F(case["thr"])
-    extras, hits, holds = case_rows(case)
-    inp = hits + holds
-    tags = [game, case["mode"]]
+    via = case.get("via", "api")
+    tags = ["via:" + via + (":" + case["fmt"] if via == "read" else "")]
+    for step in case.get("post") or []:
+        tags.append("post:" + step["op"])
     bd = case.get("build") or {}
-    tags += sorted({"build:" + v for v in bd.values()} or {"build:frame"})
-    # ---- implementation
-    m = build_map(case)
+    if via == "api":
+        tags += sorted({"build:" + v for v in bd.values()} or {"build:frame"})
+    # ---- the input chart: built through the list API, read by a real reader, converted, rated
+    try:
+        m = load_chart(case)
+        extras, hits_s, holds = chart_rows(m)
+    except Skip as e:
+        return dict(claim="full_ln", ok=True, agree=True, dom=False, kf=None, tags=tags + ["skipped", "skip:" + str(e).split(":")[0][:40]],
+                    nontrivial=False, detail={})
+    tags.append(type(m).__name__)
+    hits = [(o, c, None) for (o, c, _l) in hits_s]          # kind of a note = the list it lives in
+    stray = any(l is not None for (_o, _c, l) in hits_s)
+    inp = hits + holds
+    if via == "api" and not case.get("post"):
+        mode = case["mode"]
+    else:
+        mode = "E" if all(e_exact(v) for r in inp for v in (r[0], r[2] if r[2] is not None else Fr(0))) and e_exact(gap) and e_exact(thr) else "T"
+    tags.append(mode)
+    mcase = dict(case, mode=mode)
     snapshot = {k: v.df.copy(deep=True) for k, v in m.objs.items() if k not in ("hits", "holds")}
     impl_err = None
     res = None
@@ -282,18 +498,21 @@ def run(case, drv):
             res = full_ln(m, float(gap), float(thr))
         except Exception as e:       # mapped to an enum, never raised
             impl_err = err_class(e)
-    # ---- model
+    # ---- model (the hit rows go in as the code sees them, stray length included)
     mo = drv.call("c17.model", gap=R(gap), thr=R(thr), extras=[jrow(r) for r in extras],
-                  hits=[jrow(r) for r in hits], holds=[jrow(r) for r in holds])
+                  hits=[jrow(r) for r in hits_s], holds=[jrow(r) for r in holds])
     nontrivial = any(len(v) >= 2 for v in by_column(inp).values())
     if extras:
-        tags.append("sm-extras")
+        tags.append("extras")
+    if stray:
+        tags.append("stray-length")
     if not inp:
         tags.append("empty")
+    dom = not stray          # the theorems' domain hypothesis
     if impl_err is not None:
         tags.append("impl-raises")
         # the property promises a result for every chart, and the model never raises
-        return dict(claim="full_ln", ok=False, agree=False, dom=True, kf=None, tags=tags, nontrivial=nontrivial,
+        return dict(claim="full_ln", ok=False, agree=False, dom=dom, kf=None, tags=tags, nontrivial=nontrivial,
                     detail=dict(impl_error=impl_err, model=mo))
     # ---- result of the implementation
     bad = None
@@ -311,17 +530,19 @@ def run(case, drv):
         r_hits, r_holds, r_extras = [], [], []
     # tempo and other lists (the further note lists among them) unchanged
     others_ok = (type(res) is type(m)) and set(res.objs.keys()) == set(m.objs.keys()) and all(
-        res.objs[k].df.equals(snapshot[k]) for k in snapshot)
-    # a "hit" that carries a length is not a hit: the hit list must still be a list of hits
+        frames_same(res.objs[k].df, snapshot[k]) for k in snapshot)
+    # a "hit" that carries a length is not a hit: the hit list of the RESULT must be a list of plain hits
     if bad is None and "length" in res.hits.df.columns:
         bad = "hits list has a length column (its members are holds)"
-    tol = tolerance(case, inp)
+    allrows = inp + [(o, c, l) for (o, c, l) in hits_s if l is not None]
+    tol = tolerance(mcase, allrows)
     out_new = r_hits + r_holds              # what full_ln produced
     boundary = False
-    if case["mode"] == "T":
-        mg = drv.call("c17.margins", gap=R(gap), thr=R(thr), rows=[jrow(r) for r in inp])["ok"]
+    seen = [(o, c, l) for (o, c, l) in hits_s] + holds       # the stacked frame as the loop sees it
+    if mode == "T":
+        mg = drv.call("c17.margins", gap=R(gap), thr=R(thr), rows=[jrow(r) for r in seen])["ok"]
         boundary = any(abs(F(x)) <= tol for x in mg)
-        out_new_s = snap_lengths(out_new, inp, gap, tol)
+        out_new_s = snap_lengths(out_new, seen, gap, tol)
     else:
         out_new_s = out_new
     # ---- (S) specification on the implementation's output: hits+holds of the result against hits+holds of the input
@@ -331,6 +552,14 @@ def run(case, drv):
         tags.append("float-boundary")
     else:
         ok = sp["spec"] and sp["conservation"] and sp["no_overlap"] and others_ok and bad is None
+    # DOMAIN hypothesis of the theorems (∀ r ∈ hits, r.length = none): a hit list that the test itself built with a non-NaN
+    # stray `length` column is not a chart the property quantifies over (the library's constructors, readers and converters
+    # never produce one) — such a case is a correspondence-only case: the specification is not evaluated.
+    # A hit list with a length that comes out of a READER is not excused: it is judged like any other chart.
+    built_stray = via == "api" and any(len(h) > 2 and h[2] is not None for h in case["hits"])
+    if stray and built_stray:
+        ok = others_ok and bad is None
+        tags.append("corr-only")
     # ---- (C) correspondence with the model
     agree = "ok" in mo
     maxdev = 0.0
@@ -342,13 +571,13 @@ def run(case, drv):
         elif boundary:
             agree = rows_match([(o, c, None) for (o, c, _l) in out_new], [(o, c, None) for (o, c, _l) in m_new], Fr(0))
         elif rows_match(out_new, m_new, tol):
-            if case["mode"] == "T":
+            if mode == "T":
                 for x, y in zip(sorted(out_new, key=sort_key), sorted(m_new, key=sort_key)):
                     if x[2] is not None and y[2] is not None:
                         maxdev = max(maxdev, float(abs(x[2] - y[2])))
         else:
             # stacked notes at the end of a column: the sort may put any of them last
-            ic, mc, sc = by_column(out_new), by_column(m_new), by_column(inp)
+            ic, mc, sc = by_column(out_new), by_column(m_new), by_column(seen)
             agree = set(ic) == set(mc)
             if agree:
                 for c in ic:
@@ -363,9 +592,10 @@ def run(case, drv):
     detail = {}
     if not (ok and agree):
         detail = dict(spec=sp, others_unchanged=others_ok, bad_number=bad,
+                      input_hits=[str(x) for x in hits_s[:30]], input_holds=[str(x) for x in holds[:30]],
                       impl_hits=[str(x) for x in r_hits[:40]], impl_holds=[str(x) for x in r_holds[:40]],
                       impl_extras=[str(x) for x in r_extras[:20]], model=mo)
-    return dict(claim="full_ln", ok=ok, agree=agree, dom=True, kf=None, tags=tags, nontrivial=nontrivial, maxdev=maxdev,
+    return dict(claim="full_ln", ok=ok, agree=agree, dom=dom, kf=None, tags=tags, nontrivial=nontrivial, maxdev=maxdev,
                 boundary=boundary, detail=detail)
 
 
@@ -450,7 +680,7 @@ def gen_notes(rng, mode, n, keys, gap, thr):
     return notes
 
 
-def gen(rng, tier, i):
+def gen_api(rng, tier, i):
     mode = "T" if rng.random() < 0.15 else "E"
     game = rng.choice(["base", "base", "osu", "osu", "bms", "o2j", "sm", "sm", "sm", "qua", "qua"])
     keys = rng.choice([1, 2, 4, 4, 5, 7, 8, 10])
@@ -519,9 +749,93 @@ def gen(rng, tier, i):
     return case
 
 
+GAME_PREFIX = dict(osu="Osu", qua="Qua", bms="BMS", sm="SM", o2j="O2J")
+
+
+def tweak_qua(rng, doc):
+    """a c06 document made denser for full_ln: few lanes, times/lanes mostly present, explicit `EndTime: 0` on plain notes"""
+    hos = doc.get("HitObjects") or []
+    lanes = rng.choice([1, 2, 2, 3, 4])
+    fill = rng.random() < 0.8
+    zero = rng.choice([0.0, 0.0, 0.3, 0.6])
+    for i, rec in enumerate(hos):
+        if fill and "StartTime" not in rec:
+            rec["StartTime"] = rng.choice([0, 100, 250, 1000, rng.randrange(0, 5000)])
+            if "EndTime" in rec:
+                rec["EndTime"] = rec["StartTime"] + rng.choice([0, 50, 400])
+        if fill or "Lane" in rec:
+            rec["Lane"] = 1 + (int(rec.get("Lane", i)) % lanes)
+        if "EndTime" not in rec and rng.random() < zero:
+            rec["EndTime"] = rng.choice([0, 0, 0.0])
+    for _ in range(rng.choice([0, 0, 2, 4])):          # a few more plain notes
+        rec = dict(StartTime=rng.choice([0, 150, 400, 1000, rng.randrange(0, 5000)]), Lane=rng.randint(1, lanes))
+        if rng.random() < zero:
+            rec["EndTime"] = 0
+        hos.insert(rng.randint(0, len(hos)), rec)
+    doc["HitObjects"] = hos
+    return doc
+
+
+def gen_read(rng, tier):
+    """a chart through a real reader: the text / byte generators of the format properties are reused"""
+    fmt = rng.choice(["qua", "qua", "qua", "osu", "osu", "sm", "sm", "bms", "o2j"])
+    if fmt == "osu":
+        payload = dict(lines=_props_mod("c01").gen_text(rng, tier))
+    elif fmt == "qua":
+        payload = dict(doc=tweak_qua(rng, _props_mod("c06").gen_doc(rng)), style=rng.choice(["block", "block", "mixed", "flow"]),
+                       sort_keys=rng.random() < 0.3)
+    elif fmt == "sm":
+        mod = _props_mod("c02")
+        for _ in range(8):
+            payload = mod.gen(rng, tier, 1000)
+            if payload.get("stream") in ("main", "nostops", "comments", "offgrid"):
+                break
+    elif fmt == "bms":
+        payload = _props_mod("c04").gen(rng, tier, 1000)
+    else:
+        mod = _props_mod("c07")
+        for _ in range(8):
+            payload = mod.gen(rng, tier, 1000)
+            if payload.get("claim") == "read":
+                break
+    gap, thr = gen_params(rng, "E" if rng.random() < 0.8 else "T")
+    return dict(claim="full_ln", via="read", fmt=fmt, payload=payload, pick=rng.randrange(4), gap=R(gap), thr=R(thr))
+
+
+def gen_post(rng, case):
+    src = GAME_PREFIX.get(case.get("fmt") if case.get("via") == "read" else case.get("game"))
+    if src is None or rng.random() < 0.4:
+        return dict(op="rate", by=R(Fr(rng.choice([0.5, 2.0, 4.0, 0.25, 1.5, 1.1, 0.75]))))
+    return dict(op="convert", conv=rng.choice([c for c in CONVS if c.startswith(src + "To")]))
+
+
+def gen(rng, tier, i):
+    r = rng.random()
+    if r < 0.28:
+        case = gen_read(rng, tier)
+    else:
+        case = gen_api(rng, tier, i)
+        rs = rng.random()
+        if rs < 0.10 and case["hits"]:
+            # a hit list that carries an undeclared `length` column full of NaN: inside the domain
+            case["hits"] = [h + [None] for h in case["hits"]]
+        elif rs < 0.125 and case["hits"]:
+            # outside the domain (correspondence only): non-NaN values in that column
+            allrows = rng.random() < 0.5
+            val = lambda: R(Fr(rng.choice([0, 0, 1, 50, 1000])))
+            case["hits"] = [h + [val() if (allrows or rng.random() < 0.5) else None] for h in case["hits"]]
+        if rng.random() < 0.15:
+            case["xcols"] = {k: rng.choice([["index"], ["foo"], ["index", "foo"]]) for k in rng.choice([["hits"], ["holds"], ["hits", "holds"]])}
+    if rng.random() < 0.22:
+        if case.get("via") != "read" and not case.get("bpms"):
+            case["bpms"] = [[R(Fr(0)), R(Fr(120))]]
+        case["post"] = [gen_post(rng, case)]
+    return case
+
+
 def _c(game, gap, thr, hits, holds, mode="E", extras=None, bpms=None, **kw):
     d = dict(claim="full_ln", game=game, mode=mode, gap=R(Fr(gap)), thr=R(Fr(thr)),
-             hits=[[R(Fr(t)), c] for t, c in hits], holds=[[R(Fr(t)), c, R(Fr(l))] for t, c, l in holds],
+             hits=[[R(Fr(h[0])), h[1]] + ([None if h[2] is None else R(Fr(h[2]))] if len(h) > 2 else []) for h in hits], holds=[[R(Fr(t)), c, R(Fr(l))] for t, c, l in holds],
              bpms=[[R(Fr(a)), R(Fr(b))] for a, b in (bpms or [])])
     if extras:
         d["extras"] = {k: [[R(Fr(x[0])), x[1]] + ([R(Fr(x[2]))] if len(x) > 2 else []) for x in v] for k, v in extras.items()}
@@ -557,6 +871,28 @@ def corpus():
         c.append(_c("base", 10.5, 100, [(0, 0), (500, 0)], [], build=dict(hits=b, holds=b)))                 # -> hold 489.5
         c.append(_c("osu", 10.5, 100, [(0.5, 0), (700.5, 0)], [(300, 0, 50), (2000, 0, 10)], build=dict(hits="frame", holds=b)))
         c.append(_c("sm", 0.25, 0, [(0, 1), (100, 1), (250, 1)], [(50, 1, 7), (400, 1, 9)], build=dict(hits=b, holds=b)))
+    # undeclared columns that must not matter; a stray `length` column (NaN: in the domain; values: correspondence only)
+    c.append(_c("base", G, T, [(0, 0), (500, 0)], [], xcols=dict(hits=["index", "foo"])))
+    c.append(_c("osu", G, T, [(0, 0), (500, 0)], [(100, 1, 5)], xcols=dict(hits=["foo"], holds=["index"])))
+    c.append(_c("base", G, T, [(0, 0, 0), (500, 0, 0)], []))                          # outside the domain: correspondence only
+    c.append(_c("osu", G, T, [(0, 0, None), (500, 0, None), (100, 1, None)], [(700, 0, 20)]))      # all-NaN stray column: in the domain
+    c.append(_c("sm", 0, 0, [(0, 0, None), (500, 0, 7), (900, 0, None)], [(100, 0, 20)], xcols=dict(hits=["index"])))
+    # a Quaver document whose plain notes carry an explicit `EndTime: 0` / omit keys, through QuaMap.read
+    qdoc = dict(AudioFile="a.mp3", Mode="Keys4",
+                HitObjects=[dict(StartTime=100, Lane=1, EndTime=0), dict(StartTime=600, Lane=1), dict(StartTime=900, Lane=1, EndTime=0),
+                            dict(StartTime=50, Lane=2), dict(StartTime=700, Lane=2, EndTime=900), dict(StartTime=1200, Lane=2, EndTime=0)],
+                TimingPoints=[dict(StartTime=0, Bpm=120)], SliderVelocities=[])
+    for g, t in [(G, T), (0, 0), (10.5, 0)]:
+        c.append(dict(claim="full_ln", via="read", fmt="qua", payload=dict(doc=qdoc, style="block", sort_keys=False), pick=0,
+                      gap=R(Fr(g)), thr=R(Fr(t))))
+    c.append(dict(claim="full_ln", via="read", fmt="qua", payload=dict(doc=qdoc, style="block", sort_keys=False), pick=0,
+                  gap=R(Fr(G)), thr=R(Fr(T)), post=[dict(op="convert", conv="QuaToOsu")]))
+    # rate and converters in front of full_ln
+    c.append(_c("osu", G, T, [(0, 0), (500, 0), (100, 1)], [(1000, 0, 30)], bpms=[(0, 120)], post=[dict(op="rate", by=R(Fr(2)))]))
+    c.append(_c("osu", G, T, [(0, 0), (500, 0), (100, 1)], [(1000, 0, 30)], bpms=[(0, 120)], post=[dict(op="convert", conv="OsuToQua")]))
+    c.append(_c("sm", G, T, [(0, 0), (500, 0), (100, 1)], [(1000, 0, 30)], bpms=[(0, 120)], extras=dict(mines=[(250, 0)]),
+                post=[dict(op="convert", conv="SMToOsu")]))
+    c.append(_c("bms", G, T, [(0, 0), (500, 0)], [(1000, 0, 30)], bpms=[(0, 120)], post=[dict(op="convert", conv="BMSToSM")]))
     # D23 (repaired) witness shape: a StepMania mine between two hits; rolls / fakes elsewhere
     c.append(_c("sm", G, T, [(0, 0), (1000, 0)], [], extras=dict(mines=[(500, 0)])))
     c.append(_c("sm", G, T, [(0, 0)], [(1000, 0, 50)], extras=dict(rolls=[(2000, 0, 100)], fakes=[(0, 1)])))
@@ -585,7 +921,39 @@ def _is_rat(x, mode):
     return True
 
 
+def _post_ok(case):
+    post = case.get("post")
+    if post is None:
+        return True
+    if not isinstance(post, list) or len(post) > 2:
+        return False
+    for st in post:
+        if not isinstance(st, dict):
+            return False
+        if st.get("op") == "rate":
+            if not (_is_rat(st.get("by"), "T") and st["by"][0] > 0):
+                return False
+        elif st.get("op") == "convert":
+            if st.get("conv") not in CONVS:
+                return False
+        else:
+            return False
+    return True
+
+
 def valid(case):
+    try:
+        if case.get("via") == "read":
+            return (case.get("claim") == "full_ln" and case.get("fmt") in ("osu", "qua", "sm", "bms", "o2j")
+                    and isinstance(case.get("payload"), dict) and isinstance(case.get("pick", 0), int)
+                    and _is_rat(case["gap"], "T") and _is_rat(case["thr"], "T") and case["gap"][0] >= 0 and case["thr"][0] >= 0
+                    and _post_ok(case))
+        return _valid_api(case) and _post_ok(case)
+    except Exception:
+        return False
+
+
+def _valid_api(case):
     try:
         mode = case["mode"]
         if case["game"] not in GAMES or mode not in ("E", "T") or case.get("claim") != "full_ln":
@@ -596,7 +964,15 @@ def valid(case):
         def col_ok(c):
             return isinstance(c, int) and not isinstance(c, bool) and 0 <= c <= 17
         for r in case["hits"]:
-            if not (isinstance(r, list) and len(r) == 2 and _is_rat(r[0], mode) and col_ok(r[1])):
+            if not (isinstance(r, list) and len(r) in (2, 3) and _is_rat(r[0], mode) and col_ok(r[1])):
+                return False
+            if len(r) == 3 and not (r[2] is None or (_is_rat(r[2], mode) and r[2][0] >= 0)):
+                return False
+        xc = case.get("xcols")
+        if xc is not None:
+            if not isinstance(xc, dict) or any(k not in ("hits", "holds") or not isinstance(v, list) or
+                                               any(c not in ("index", "foo") for c in v) or len(set(v)) != len(v)
+                                               for k, v in xc.items()):
                 return False
         for r in case["holds"]:
             if not (isinstance(r, list) and len(r) == 3 and _is_rat(r[0], mode) and col_ok(r[1]) and _is_rat(r[2], mode)
